@@ -195,6 +195,9 @@ func Any(cs ...bool) bool {
 func Not(c bool) bool        { return !c }
 func Implies(a, b bool) bool { return !a || b }
 
+// NotNegZero reports that x is not the IEEE negative zero.
+func NotNegZero(x float64) bool { return !(x == 0 && math.Signbit(x)) }
+
 func IteF64(c bool, a, b float64) float64 {
 	if c {
 		return a
